@@ -59,6 +59,11 @@ func (loader *VeneersLoader) load(reader io.Reader) (rewrite.LanguageRules, erro
 		return rewrite.LanguageRules{}, err
 	}
 
+	// an empty or null document leaves nothing to work with
+	if veneers == nil {
+		return rewrite.LanguageRules{}, fmt.Errorf("empty veneers file")
+	}
+
 	if veneers.Package == "" {
 		return rewrite.LanguageRules{}, fmt.Errorf("missing 'package' statement in veneers file '%s'", reader)
 	}
